@@ -406,3 +406,12 @@ package linker
 // on "__proto__" (an own property, not the prototype setter) and every other attribute stay those of the cloned
 // property. So the substitution writes the ValueOrNil field of the clone's element, not a rebuilt element.
 //@ flow lazy-export-substitution-writes-only-the-value C02: func=(*linkerContext).generateCodeForFileInChunkJS ; in=linker ; site=store Property.ValueOrNil ; targetpath=objectClone.Properties[*].ValueOrNil
+
+// C08 (diagnostics are part of the build's result and must not depend on Go's map order): a typo detector keeps, for
+// each one-character deletion, the LAST word that produces it, so the list of valid words it is built from must be in
+// a fixed order; a list gathered by ranging over a map is sorted first.
+//@ guarded typo-detector-is-built-from-a-sorted-list C08: func=(*linkerContext).maybeCorrectObviousTypo ; in=linker ; site=call MakeTypoDetector ; scenario=css_typo_suggestion_order ; preceded-by-call=Strings
+
+// C19: same rule for the paths the linker writes into the metafile (see bundler: metafile-paths-use-the-metafile-style).
+// generateExtraDataForFileJS is exempt: it writes the --analyze tree data, which is not the metafile.
+//@ flow metafile-paths-use-the-metafile-style C19: func=* ; except-func=(*linkerContext).generateExtraDataForFileJS ; in=linker ; site=call QuoteForJSON ; when-arg=0:*PrettyPaths* ; argpath=0:*Select(*MetafilePathStyle)*
